@@ -82,7 +82,12 @@ func genString(t *rapid.T, label string) string {
 func genValue(t *rapid.T, cs ColSpec, label string) Value {
 	switch cs.Kind {
 	case KString:
-		return Value{S: genString(t, label)}
+		v := genString(t, label)
+		if cs.Merge == MConcat && len(v) > 40 {
+			// a concatenating merge must not grow a value beyond the format's 65535-byte limit
+			v = v[:40]
+		}
+		return Value{S: v}
 	case KEnum:
 		return Value{S: rapid.SampledFrom(enumAlphabet).Draw(t, label)}
 	case KKey:
@@ -97,14 +102,15 @@ func genValue(t *rapid.T, cs ColSpec, label string) Value {
 
 // SchemaCfg controls schema generation.
 type SchemaCfg struct {
-	Kinds      []Kind // kinds to draw value columns from (nil = all but key)
-	MinCols    int
-	MaxCols    int
-	Key        int  // 0 never, 1 maybe, 2 always
-	Late       bool // allow late columns
-	Merges     bool // allow non-default merge functions
-	NoLenMerge bool // never use merge functions that change the length (F15 trigger class)
-	Capacities []int
+	Kinds          []Kind // kinds to draw value columns from (nil = all but key)
+	MinCols        int
+	MaxCols        int
+	Key            int  // 0 never, 1 maybe, 2 always
+	Late           bool // allow late columns
+	Merges         bool // allow non-default merge functions
+	NoLenMerge     bool // never use merge functions that change the length (F15 trigger class)
+	Capacities     []int
+	EnsureLenMerge bool // in half of the schemas add a string column whose merge function changes the length / returns its delta
 }
 
 var allValueKinds = []Kind{KInt, KInt16, KInt32, KInt64, KUint, KUint16, KUint32, KUint64, KFloat32, KFloat64, KBool, KString, KEnum, KRecord}
@@ -132,7 +138,7 @@ func genSchema(t *rapid.T, cfg SchemaCfg) *Schema {
 			case k.Numeric():
 				cs.Merge = MMulAdd
 			case k == KString:
-				cs.Merge = rapid.SampledFrom([]MergeKind{MConcat, MMix}).Draw(t, "smerge")
+				cs.Merge = rapid.SampledFrom([]MergeKind{MConcat, MMix, MMax}).Draw(t, "smerge")
 			case k == KRecord:
 				cs.Merge = rapid.SampledFrom([]MergeKind{MRecSum, MRecMix}).Draw(t, "rmerge")
 			}
@@ -148,6 +154,9 @@ func genSchema(t *rapid.T, cfg SchemaCfg) *Schema {
 			cs.Late = true
 		}
 		s.Cols = append(s.Cols, cs)
+	}
+	if cfg.EnsureLenMerge && rapid.Bool().Draw(t, "ensure-len-merge") {
+		s.Cols = append(s.Cols, ColSpec{Name: fmt.Sprintf("c%d_lstring", n), Kind: KString, Merge: rapid.SampledFrom([]MergeKind{MConcat, MMax}).Draw(t, "lmerge")})
 	}
 	if cfg.Key == 2 || (cfg.Key == 1 && rapid.IntRange(0, 2).Draw(t, "keyed") == 0) {
 		s.Key = len(s.Cols)
